@@ -261,6 +261,37 @@ def Item.run (honour : Bool) (it : Item α) : List Call → Item α × List (Obs
 def Item.runCode (it : Item α) (cs : List Call) : Item α × List (Obs α) :=
   it.run deckItemGetHonoursRawData cs
 
+/-! ### `DeckItem::get<UDAValue>(i)` (stateless): which dimension a UDA value carries -/
+
+/-- what `get<UDAValue>(i)` returns for a numeric item value: the value with the ACTIVE dimension
+if it came from the deck, a value-less UDAValue carrying the DEFAULT dimension if it was
+defaulted (callers supply their own default through `SI_value_or`), the bare value when the item
+has no dimension -/
+inductive UdaObs (α : Type)
+  | si (x : α)            -- numeric: `getSI()`
+  | undefined (d : Dim α) -- not numeric: only the dimension
+  | err
+  deriving Repr
+
+def Item.uda (it : Item α) (i : Nat) : UdaObs α :=
+  match it.dval[i]? with
+  | none => .err
+  | some x =>
+    if it.active.isEmpty then .si (x * one + zero)          -- `Dimension()` = (1.0, 0.0)
+    else
+      let st := it.status.getD i .uninitialized
+      if st.defaulted then
+        match it.dflt[i % it.active.length]? with
+        | some d => .undefined d
+        | none => .err
+      else
+        match it.active[i % it.active.length]? with
+        | some d =>
+          match d.rawToSi x with
+          | some y => .si y
+          | none => .err
+        | none => .err
+
 /-! ### `data::Solution`: conversion of output vectors, guarded by the `si` flag -/
 
 /-- the measure whose vectors are never converted (`dim != UnitSystem::measure::identity`) -/
